@@ -54,6 +54,8 @@ type TxGen struct {
 	Notes map[string]int
 	// FailLogs counts failure messages of transactions meant to be valid (tuning aid).
 	FailLogs map[string]int
+	// rt drives the rounds of the scenario's runtime (runtime support; nil without a runtime).
+	rt *rtDriver
 }
 
 type maker struct {
@@ -88,6 +90,12 @@ func NewTxGen(h *History) *TxGen {
 		{"freshness", 1, (*TxGen).mkFreshness},
 		{"garbage", 1, (*TxGen).mkGarbage},
 		{"replay", 2, (*TxGen).mkReplay},
+	}
+	if h.Sc.Runtime != nil { // runtime support
+		g.makers = append(g.makers,
+			maker{"rt-submitmsg", w(4, "runtime", 2), (*TxGen).mkSubmitMsg},
+			maker{"rt-evidence", w(3, "runtime", 2), (*TxGen).mkEvidence},
+		)
 	}
 	return g
 }
@@ -357,6 +365,15 @@ func (g *TxGen) mkDeregisterEntity() *GenTx {
 	return g.finish(e.Account, tx, e.Name)
 }
 
+// nodeGas is the gas a node registration needs (runtime support: a node registered for a
+// runtime also pays the per-epoch runtime maintenance operation for every epoch of its expiration).
+func (g *TxGen) nodeGas(n *SimNode) uint64 {
+	if len(n.Runtimes) == 0 {
+		return 1000
+	}
+	return 1000 + 1000*uint64(len(n.Runtimes))*(uint64(g.view().RegistryP.MaxNodeExpiration)+1)
+}
+
 // signNode signs a node descriptor with the given signers under the registration context.
 func signNode(signers []signature.Signer, nd *node.Node) *node.MultiSignedNode {
 	sn, err := node.MultiSignNode(signers, registry.RegisterNodeSignatureContext, nd)
@@ -376,11 +393,18 @@ func (g *TxGen) renewNode(n *SimNode, extra int) *GenTx {
 			exp = ep + 2
 		}
 	}
+	// runtime support: some nodes add the runtime's second deployment version when it is about to become active.
+	oldRts, newRts := n.Runtimes, n.Runtimes
+	if at := g.h.Sc.P.RT.SecondDeploymentAt; at != 0 && len(n.Runtimes) == 1 && n.Runtimes[0].Version == rtVersion1 && ep+2 >= at && g.rng.IntN(3) == 0 {
+		newRts = append(append([]*node.Runtime(nil), n.Runtimes...), &node.Runtime{ID: n.Runtimes[0].ID, Version: rtVersion2})
+	}
+	n.Runtimes = newRts
 	nd := NodeDescriptor(n, beacon.EpochTime(exp))
 	sn := signNode(NodeSigners(n), nd)
-	tx := registry.NewRegisterNodeTx(g.nonce(n.Keys.ID), g.fee(1000), sn)
+	tx := registry.NewRegisterNodeTx(g.nonce(n.Keys.ID), g.fee(g.nodeGas(n)), sn)
+	n.Runtimes = oldRts
 	gt := g.finish(n.Keys.ID, tx, n.Name)
-	gt.OnSuccess = func() { n.Desc = nd }
+	gt.OnSuccess = func() { n.Desc = nd; n.Runtimes = newRts }
 	return gt
 }
 
@@ -411,7 +435,7 @@ func (g *TxGen) mkRegisterNode() *GenTx {
 		nd := NodeDescriptor(n, beacon.EpochTime(g.view().Epoch+uint64(g.view().RegistryP.MaxNodeExpiration)))
 		sn := signNode(NodeSigners(n), nd)
 		n.Keys = old
-		tx := registry.NewRegisterNodeTx(g.nonce(n.Keys.ID), g.fee(1000), sn)
+		tx := registry.NewRegisterNodeTx(g.nonce(n.Keys.ID), g.fee(g.nodeGas(n)), sn)
 		gt := g.finish(n.Keys.ID, tx, n.Name+" key-rotation")
 		gt.OnSuccess = func() { n.Keys = nk; n.Desc = nd }
 		return gt
@@ -428,7 +452,7 @@ func (g *TxGen) mkRegisterNode() *GenTx {
 			intent = "extra-signature"
 		}
 		sn := signNode(signers, nd)
-		tx := registry.NewRegisterNodeTx(g.nonce(n.Keys.ID), g.fee(1000), sn)
+		tx := registry.NewRegisterNodeTx(g.nonce(n.Keys.ID), g.fee(g.nodeGas(n)), sn)
 		gt := g.finish(n.Keys.ID, tx, n.Name)
 		gt.Intent = intent
 		return gt
@@ -437,7 +461,7 @@ func (g *TxGen) mkRegisterNode() *GenTx {
 		nd := NodeDescriptor(n, beacon.EpochTime(g.view().Epoch+2))
 		sn := signNode(NodeSigners(n), nd)
 		s := g.pickSigner()
-		tx := registry.NewRegisterNodeTx(g.nonce(s), g.fee(1000), sn)
+		tx := registry.NewRegisterNodeTx(g.nonce(s), g.fee(g.nodeGas(n)), sn)
 		gt := g.finish(s, tx, n.Name)
 		gt.Intent = "wrong-tx-signer"
 		return gt
@@ -458,7 +482,7 @@ func (g *TxGen) mkRegisterNode() *GenTx {
 		nd := NodeDescriptor(n, beacon.EpochTime(g.view().Epoch+2))
 		sn := signNode(NodeSigners(n), nd)
 		n.Keys = old
-		tx := registry.NewRegisterNodeTx(g.nonce(n.Keys.ID), g.fee(1000), sn)
+		tx := registry.NewRegisterNodeTx(g.nonce(n.Keys.ID), g.fee(g.nodeGas(n)), sn)
 		gt := g.finish(n.Keys.ID, tx, n.Name+" steals key of "+o.Name)
 		if o != n {
 			gt.Intent = "duplicate-subkey"
@@ -472,7 +496,7 @@ func (g *TxGen) mkRegisterNode() *GenTx {
 			nd.Expiration = beacon.EpochTime(g.view().Epoch)
 		}
 		sn := signNode(NodeSigners(n), nd)
-		tx := registry.NewRegisterNodeTx(g.nonce(n.Keys.ID), g.fee(1000), sn)
+		tx := registry.NewRegisterNodeTx(g.nonce(n.Keys.ID), g.fee(g.nodeGas(n)), sn)
 		gt := g.finish(n.Keys.ID, tx, n.Name)
 		gt.Intent = "bad-expiration"
 		return gt
@@ -673,7 +697,8 @@ func (g *TxGen) Next(height int64) []*GenTx {
 		out = append(out, gt)
 		if gt.Signer != nil && gt.Tx != nil && (gt.Intent == "valid" || gt.Intent == "gas-too-low" || gt.Intent == "malformed-body" ||
 			gt.Intent == "wrong-tx-signer" || gt.Intent == "missing-signature" || gt.Intent == "extra-signature" ||
-			gt.Intent == "duplicate-subkey" || gt.Intent == "bad-expiration") && gt.Tx.Nonce == g.nonce(gt.Signer) {
+			gt.Intent == "duplicate-subkey" || gt.Intent == "bad-expiration" ||
+			strings.HasPrefix(gt.Intent, "rt:")) && gt.Tx.Nonce == g.nonce(gt.Signer) { // runtime support: "rt:" intents fail after authentication
 			g.bump(gt.Signer)
 		}
 	}
@@ -690,6 +715,10 @@ func (g *TxGen) Next(height int64) []*GenTx {
 					continue // let some non-genesis nodes expire
 				}
 				if lazy && n.InGenesis && n.Entity != g.h.Sc.Entities[0] && n.Entity != g.h.Sc.Entities[1] && g.rng.IntN(6) == 0 {
+					continue
+				}
+				// runtime support: some compute-only nodes are allowed to expire.
+				if n.IsCompute() && n.Roles&node.RoleValidator == 0 && g.rng.IntN(10) == 0 {
 					continue
 				}
 				add(g.renewNode(n, 0))
@@ -717,6 +746,13 @@ func (g *TxGen) Next(height int64) []*GenTx {
 		}
 		tx := registry.NewRegisterEntityTx(g.nonce(e.Account), g.fee(1000+1000*uint64(len(ed.Nodes))), se)
 		add(g.finish(e.Account, tx, "bootstrap entity"))
+	}
+
+	// runtime support: the commitments that drive the runtime's rounds.
+	if g.h.Sc.Runtime != nil {
+		for _, gt := range g.runtimeDriver().txs(height) {
+			add(gt)
+		}
 	}
 
 	total := 0
